@@ -11,7 +11,7 @@ from . import smt
 from .engine import CONTAINER_CLASSES
 from .smt import (AND, FALSE, I, NOT, OR, S, TRUE, Val, b_of, boolv, i_of, intv, is_bool, is_int, is_none, is_ref,
                   is_str, none, r_of, ref, s_of, strv)
-from .values import (PropV, IterV, SV, Args, BoolTermV, BoundV, BuiltinV, ClassV, Frame, FuncV, LambdaV, ModuleV, Out, RawV,
+from .values import (NamedTupleClsV, PropV, IterV, SV, Args, BoolTermV, BoundV, BuiltinV, ClassV, Frame, FuncV, LambdaV, ModuleV, Out, RawV,
                      SeqTermV, St, SuperV, TupleV, Unsupported, V)
 
 EXTERNAL_MODULES = {'asyncio', 'kiwipy', 'copy', 'inspect', 'functools', 'sys', 'os', 'pickle', 'yaml', 'uuid',
@@ -173,6 +173,11 @@ class ExprMixin:
             head = tgt.split('.')[0]
             if head in mod.imports:
                 return self.resolve_qualified(st, '.'.join([mod.imports[head]] + tgt.split('.')[1:]))
+        if isinstance(node, ast.Call) and ast.unparse(node.func) in ('collections.namedtuple', 'namedtuple') and len(node.args) == 2:
+            fields = ast.literal_eval(node.args[1])
+            if isinstance(fields, str):
+                fields = fields.replace(',', ' ').split()
+            return NamedTupleClsV(node.args[0].value, fields)
         if isinstance(node, ast.Call):
             # module-level singleton instance, e.g. NULL = __NULL(), return_ = _Return(), ContextVar(...)
             fn = ast.unparse(node.func)
@@ -332,6 +337,9 @@ class ExprMixin:
 
     def getattr_sv(self, st: St, v: SV, name: str, node=None) -> List[Out]:
         outs = []
+        if v.cls is None and v.kind in (None, 'ref') and name in ('items', 'keys', 'values', 'get', 'setdefault', 'pop', 'update',
+                                                                   'append', 'extend', 'add', 'discard', 'copy', 'clear', 'remove'):
+            v = self.probe_class(st, v)
         t = v.term
         # non-ref receivers
         if v.kind is None:
@@ -1026,6 +1034,39 @@ class ExprMixin:
             self._strfn = z3.Function('py_str', Val, smt.Str)
         return self._strfn
 
+    def ev_ListComp(self, st, node):
+        """[x for x in xs if cond(x)] (a filter): a fresh list characterised by membership; order and multiplicity of
+        the result are left unspecified (recorded).  Other comprehension shapes are outside the subset."""
+        if len(node.generators) != 1 or node.generators[0].is_async:
+            raise Unsupported('comprehension shape', node)
+        g = node.generators[0]
+        if not (isinstance(node.elt, ast.Name) and isinstance(g.target, ast.Name) and node.elt.id == g.target.id):
+            raise Unsupported('only filter comprehensions [x for x in xs if c] are in the subset', node)
+
+        def k(st2, it):
+            seq = it.seq if isinstance(it, IterV) and it.kind == 'seq' else self.seq_view(st2, it)
+            st2 = st2.copy()
+            e = smt.fresh('ce', Val)
+            s3 = st2.copy()
+            s3.assume(z3.Contains(seq, z3.Unit(e)))
+            a = self.assign(s3, g.target, SV(e))
+            cond = TRUE
+            cur = a[0].st
+            for c in g.ifs:
+                o = self.ev(cur, c)
+                oks = [x for x in o if x.kind == 'ok']
+                if len(o) != 1 or len(oks) != 1:
+                    raise Unsupported('comprehension condition forks or may raise', node)
+                cond = AND(cond, self.truthy(oks[0].st, oks[0].val))
+                cur = oks[0].st
+            res = smt.fresh('comp', smt.SeqV)
+            st2.assume(z3.ForAll([e], z3.Contains(res, z3.Unit(e)) == AND(z3.Contains(seq, z3.Unit(e)), cond)))
+            st2.assume(z3.Length(res) <= z3.Length(seq))
+            self.note('filter comprehension: result characterised by membership only (order/multiplicity unspecified)')
+            return self.ok(st2, self.new_list(st2, res))
+
+        return self.bind(self.ev(st, g.iter), k)
+
     def ev_Lambda(self, st, node):
         return self.ok(st, LambdaV(node, dict(st.loc), st.frame))
 
@@ -1066,6 +1107,25 @@ class ExprMixin:
 
     def norm_index(self, idx, ln):
         return z3.If(idx < 0, idx + ln, idx)
+
+    def probe_class(self, st, v, timeout_ms=800):
+        """If the path condition (quantified class invariants included) entails that an untyped value is a builtin
+        container, return the typed value."""
+        if not isinstance(v, SV) or v.cls is not None or v.kind not in (None, 'ref'):
+            return v
+        key = ('probe', v.term.get_id(), len(st.pc))
+        cache = self.__dict__.setdefault('_probe_cache', {})
+        if key in cache:
+            return cache[key]
+        res = v
+        t = v.term
+        clt = z3.Select(st.CL, r_of(t))
+        for q in ('dict', 'list', 'tuple', 'set'):
+            if self.entails(st, AND(is_ref(t), clt == I(self.cls(q).id)), timeout_ms):
+                res = SV(t, 'ref', self.cls(q), True)
+                break
+        cache[key] = res
+        return res
 
     def split_kind(self, st, v):
         """fork an untyped SV into its feasible kinds: -> list of (st, typed SV)"""
@@ -1139,6 +1199,7 @@ class ExprMixin:
         return None
 
     def getitem(self, st, base: V, idx: V, node=None) -> List[Out]:
+        base = self.probe_class(st, base) if isinstance(base, SV) and base.cls is None and base.kind != 'str' else base
         if isinstance(base, TupleV):
             ci = self.const_int(idx)
             if ci is not None:
